@@ -79,6 +79,7 @@ var c10Alphabet = []string{
 	"# plain comment",
 	"key: \"unterminated # pint ignore/line",
 	"",
+	"{% jinja «ü» – żółć %} # pint ignore/line",
 }
 
 var c10Payloads = []string{
@@ -102,6 +103,8 @@ var c10Payloads = []string{
 	"",
 	"groups: [",
 	"&anchor *alias <<: !!binary",
+	"{{ żółć }} «x» – 日本語",
+	"# komentarz – ąę # pint ignore/line",
 }
 
 func lineHas(line, what string) bool {
@@ -301,6 +304,187 @@ func c10MakeB(r *rand.Rand, all []string, mask []int, gap, n int, sameLen bool) 
 		seqB = append(seqB, l)
 	}
 	return seqB, maskNames, differs
+}
+
+// ---- second relation of the statement: inserting an excluded block between rules only shifts what follows ----
+
+// gaps of each base that lie between rules (0-based index of the line the block goes in front of; len = at the end)
+var c10RuleGaps = [][]int{{3, 7, 15}, {0, 2, 7}}
+
+type c10InsCase struct {
+	Base   int      `json:"base"`
+	Gap    int      `json:"gap"`
+	Seq    []string `json:"inserted"`
+	Units  string   `json:"units"`
+	Strict bool     `json:"strict"`
+}
+
+// c10ShiftedRules: the rules of a parsed file as comparable strings (values, positions, line ranges, errors), with
+// every line number above `after` moved by `by`. Control comments are not compared: a kept `# pint ignore/line`
+// is a comment of its own.
+func c10ShiftedRules(content string, strict bool, after, by int) (out []string, fileErr string, panicked string) {
+	defer func() {
+		if r := recover(); r != nil {
+			panicked = fmt.Sprint(r)
+		}
+	}()
+	sh := func(l int) int {
+		if l > after {
+			return l + by
+		}
+		return l
+	}
+	p := parser.NewParser(strict, parser.PrometheusSchema, model.UTF8Validation)
+	f := p.Parse(strings.NewReader(content))
+	if f.Error.Err != nil {
+		fileErr = fmt.Sprintf("%d:%s", sh(f.Error.Line), f.Error.Err)
+	}
+	node := func(name string, n *parser.YamlNode) string {
+		if n == nil {
+			return name + "=nil"
+		}
+		var ps []string
+		for _, r := range n.Pos {
+			ps = append(ps, fmt.Sprintf("%d:%d-%d", sh(r.Line), r.FirstColumn, r.LastColumn))
+		}
+		return fmt.Sprintf("%s=%q@%s", name, n.Value, strings.Join(ps, ","))
+	}
+	ym := func(name string, m *parser.YamlMap) string {
+		if m == nil {
+			return name + "=nil"
+		}
+		var items []string
+		for _, it := range m.Items {
+			items = append(items, node("k", it.Key)+" "+node("v", it.Value))
+		}
+		return name + "{" + strings.Join(items, "; ") + "}"
+	}
+	for _, g := range f.Groups {
+		ge := ""
+		if g.Error.Err != nil {
+			ge = fmt.Sprintf("%d:%s", sh(g.Error.Line), g.Error.Err)
+		}
+		out = append(out, "group "+g.Name+" err="+ge)
+		for _, r := range g.Rules {
+			parts := []string{string(r.Type()), fmt.Sprintf("lines=%d-%d", sh(r.Lines.First), sh(r.Lines.Last))}
+			if r.Error.Err != nil {
+				parts = append(parts, fmt.Sprintf("err=%d:%s", sh(r.Error.Line), r.Error.Err))
+			}
+			if rr := r.RecordingRule; rr != nil {
+				parts = append(parts, node("record", &rr.Record), node("expr", rr.Expr.Value), ym("labels", rr.Labels))
+			}
+			if ar := r.AlertingRule; ar != nil {
+				parts = append(parts, node("alert", &ar.Alert), node("expr", ar.Expr.Value), node("for", ar.For), node("kff", ar.KeepFiringFor), ym("labels", ar.Labels), ym("annotations", ar.Annotations))
+			}
+			out = append(out, strings.Join(parts, " | "))
+		}
+	}
+	return out, fileErr, ""
+}
+
+func c10InsCheck(cs c10InsCase) (viol []core.Violation) {
+	base := c10Bases[cs.Base]
+	ins, _ := c10Build(base, cs.Gap, cs.Seq)
+	files := map[string][]byte{"base.yml": []byte(base), "inserted.yml": []byte(ins)}
+	want, we, p1 := c10ShiftedRules(base, cs.Strict, cs.Gap, len(cs.Seq))
+	got, ge, p2 := c10ShiftedRules(ins, cs.Strict, 0, 0)
+	if p1 != "" || p2 != "" {
+		return []core.Violation{{Sig: "parser-panic", What: "parser panicked: " + p1 + p2, Case: cs, Files: files}}
+	}
+	if we != ge || strings.Join(want, "\n") != strings.Join(got, "\n") {
+		what := "rules-differ"
+		switch {
+		case we != ge:
+			what = "file-error"
+		case len(got) < len(want):
+			what = "rules-vanish"
+		case len(got) > len(want):
+			what = "rules-appear"
+		}
+		first := ""
+		for i := 0; i < len(want) || i < len(got); i++ {
+			w, g := "<none>", "<none>"
+			if i < len(want) {
+				w = want[i]
+			}
+			if i < len(got) {
+				g = got[i]
+			}
+			if w != g {
+				first = fmt.Sprintf("first difference at #%d: without the block (shifted) %s ;; with it %s", i, core.Trunc(w, 300), core.Trunc(g, 300))
+				break
+			}
+		}
+		viol = append(viol, core.Violation{
+			Sig:   "inserted-excluded-block-changes-what-follows:" + what + ":" + cs.Units,
+			What:  fmt.Sprintf("inserting the excluded block %q in front of line %d changes more than line numbers (file error %q vs %q, %d vs %d rules); %s", cs.Seq, cs.Gap+1, we, ge, len(want), len(got), first),
+			Case:  cs,
+			Files: files,
+		})
+	}
+	return viol
+}
+
+// c10InsCases: sequences of one to three exclusion units (begin..end with 0-2 payload lines, payload + ignore/line,
+// ignore/next-line + payload) at every between-rules gap of every base.
+func c10InsCases(c *core.Ctx) (cases []c10InsCase) {
+	kinds := []string{"block", "line", "next"}
+	var rec func(cur []string)
+	var seqs [][]string
+	rec = func(cur []string) {
+		if len(cur) > 0 {
+			seqs = append(seqs, append([]string{}, cur...))
+		}
+		if len(cur) == 3 {
+			return
+		}
+		for _, k := range kinds {
+			rec(append(cur, k))
+		}
+	}
+	rec(nil)
+	per := c.N(4, 40)
+	n := 0
+	for _, kindSeq := range seqs {
+		for bi := range c10Bases {
+			for _, gap := range c10RuleGaps[bi] {
+				for v := 0; v < per; v++ {
+					r := c.Rand("c10ins", n)
+					n++
+					pay := func() string {
+						for {
+							p := strings.TrimSuffix(c10Payloads[r.Intn(len(c10Payloads))], "\n")
+							if !lineHas(p, "ignore/end") && !lineHas(p, "ignore/file") && !strings.Contains(p, "ignore/line") {
+								return p
+							}
+						}
+					}
+					var seq []string
+					for _, k := range kindSeq {
+						switch k {
+						case "block":
+							seq = append(seq, "# pint ignore/begin")
+							for i := r.Intn(3); i > 0; i-- {
+								seq = append(seq, pay())
+							}
+							seq = append(seq, "# pint ignore/end")
+						case "line":
+							// (a payload with a `#` of its own would make the ignore/line part of that comment)
+							pl := pay()
+							for strings.Contains(pl, "#") {
+								pl = pay()
+							}
+							seq = append(seq, pl+" # pint ignore/line")
+						case "next":
+							seq = append(seq, "# pint ignore/next-line", pay())
+						}
+					}
+					cases = append(cases, c10InsCase{Base: bi, Gap: gap, Seq: seq, Units: strings.Join(kindSeq, "+"), Strict: r.Intn(2) == 0})
+				}
+			}
+		}
+	}
+	return cases
 }
 
 type c10Outcome struct {
@@ -532,9 +716,22 @@ func runC10(c *core.Ctx) int {
 			run.Sample(cases[i])
 		}
 	})
+	insCases := c10InsCases(c)
+	core.Parallel(len(insCases), 16, func(i int) {
+		vs := c10InsCheck(insCases[i])
+		run.Eval(1)
+		run.Count("insertion_cases", 1)
+		run.Nontrivial("insert:" + insCases[i].Units + fmt.Sprintf(":base%d:gap%d", insCases[i].Base, insCases[i].Gap))
+		for _, v := range vs {
+			run.Violate(v)
+		}
+		if i%(len(insCases)/3+1) == 0 {
+			run.Sample(insCases[i])
+		}
+	})
 	_ = os.Remove(filepath.Join(c.Scratch, "x"))
 	run.Assume("excluded lines are computed by an opaque reference reader: text before `# pint ignore/line`, the line after ignore/next-line, lines strictly between ignore/begin and the next ignore/end, everything after ignore/file; replacements never contain ignore/end inside a block and must leave the exclusion structure unchanged")
 	return run.Finish("exploration",
-		fmt.Sprintf("bounded-exhaustive: every sequence of 1..%d lines over a 14-token alphabet (the five ignore/* forms, file/disable, file/owner, disable, invalid pint comment, jinja, fake rule line, plain comment, unterminated quote + ignore/line, blank) inserted at a seed-chosen gap of two base files; for each sequence with >=1 excluded line, variants in which every excluded line / excluded prefix is replaced by another alphabet token or hostile payload (template directives, broken YAML, rule-like text, other pint comments). Oracle: parser.Parse of both variants (strict or relaxed) must give identical rules, values, positions, line ranges, rule comments, file comments, diagnostics and file error; a sample of pairs is also run through the pint binary and the H1 report multisets compared. Non-trivial = pair whose excluded text really differs; distinct by the sequence of (line kind, mask).", maxLen),
+		fmt.Sprintf("bounded-exhaustive: every sequence of 1..%d lines over a 15-token alphabet (the five ignore/* forms, file/disable, file/owner, disable, invalid pint comment, jinja, fake rule line, plain comment, unterminated quote + ignore/line, blank) inserted at a seed-chosen gap of two base files; for each sequence with >=1 excluded line, variants in which every excluded line / excluded prefix is replaced by another alphabet token or hostile payload (template directives, broken YAML, rule-like text, other pint comments). Oracle: parser.Parse of both variants (strict or relaxed) must give identical rules, values, positions, line ranges, rule comments, file comments, diagnostics and file error; a sample of pairs is also run through the pint binary and the H1 report multisets compared. Second relation: sequences of one to three exclusion units (begin..end block with 0-2 payload lines, payload + ignore/line, ignore/next-line + payload) inserted at every between-rules gap must leave rules, values, errors and positions of the file as they are without the block, with the line numbers after the gap shifted by the block's length. Non-trivial = pair whose excluded text really differs; distinct by the sequence of (line kind, mask).", maxLen),
 		core.Floors{MinEvaluations: 1000, MinNontrivial: 50})
 }
